@@ -1,9 +1,9 @@
 package hx
 
 import (
-	"regexp"
 	"fmt"
 	"math"
+	"regexp"
 	"sort"
 	"strconv"
 	"strings"
@@ -15,6 +15,10 @@ type Node struct {
 	ID   int            `json:"id"`
 	Type string         `json:"type"` // concrete object type ("" for the schema-level root node)
 	F    map[string]Val `json:"f"`
+	// Hidden: members that the data layer holds for a list field whose value (in F) is the empty
+	// list - what the application shows is F. Only a root (any) resolver makes use of it: it hands
+	// out a Go slice holding these members and answers 0 when asked for its length.
+	Hidden map[string]Val `json:"hidden,omitempty"`
 }
 
 // Graph is the neutral data graph behind the resolvers. Nodes[Root] is the
